@@ -58,6 +58,21 @@ def gen_cases(rng, n):
             hi = c["high"] if c["high"] is not None else loc + 8 * scale
         else:
             lo, hi = loc - 5 * scale, loc + 5 * scale
+        if kind == "trunc" and k % 7 == 1:
+            # a truncation bound of exactly zero (one-sided and as one edge of a window)
+            c["loc"] = loc = float(rng.uniform(-2, 2)) * scale
+            if k % 2:
+                c["low"], c["high"] = 0.0, (None if k % 4 == 1 else abs(loc) + float(rng.uniform(0.5, 3)) * scale)
+            else:
+                c["low"], c["high"] = (None if k % 4 == 0 else -abs(loc) - float(rng.uniform(0.5, 3)) * scale), 0.0
+            lo = c["low"] if c["low"] is not None else loc - 6 * scale
+            hi = c["high"] if c["high"] is not None else loc + 8 * scale
+        if kind == "gaussian" and k % 6 == 0:
+            # an integer-typed location with a non-integer width
+            c["loc"] = loc = int(rng.integers(-50, 50))
+            c["scale"] = scale = float(rng.choice([0.3, 1.5, 24.5, 2.25]))
+            c["int_loc"] = True
+            lo, hi = loc - 5 * scale, loc + 5 * scale
         w = hi - lo
         xs = [float(rng.uniform(lo, hi)) for _ in range(3)] + [lo - float(rng.uniform(0.05, 2)) * w, hi + float(rng.uniform(0.05, 2)) * w]
         c["xs"] = xs
@@ -79,7 +94,7 @@ def real_eval(payload):
             prior = PR.PySersicSourcePrior("pointsource", suffix=c["suffix"])
             name = "flux"
             if c["kind"] == "gaussian":
-                prior.set_gaussian_prior(name, c["loc"], c["scale"])
+                prior.set_gaussian_prior(name, (np.int64(c["loc"]) if c.get("int_loc") and c["seed"] % 2 else c["loc"]), c["scale"])
             elif c["kind"] == "uniform":
                 prior.set_uniform_prior(name, c["low"], c["high"])
             else:
@@ -107,6 +122,11 @@ def real_eval(payload):
                 rmodel = handlers.reparam(plain, config=prior.reparam_dict)
                 zs = np.asarray(base.sample(jax.random.PRNGKey(7), (6,)), dtype=np.float64)
                 diffs, exposed = [], []
+                tr0 = handlers.trace(handlers.seed(rmodel, 0)).get_trace()
+                res["base_site"] = (key + "_base" in tr0 and tr0[key + "_base"]["type"] == "sample" and tr0[key]["type"] == "deterministic")
+                if not res["base_site"]:
+                    out.append(res)
+                    continue
                 for z in zs:
                     tr = handlers.trace(handlers.substitute(rmodel, data={key + "_base": jnp.asarray(z, dtype=ft)})).get_trace()
                     xv = tr[key]["value"]
@@ -218,6 +238,10 @@ def evaluate(ctx, cases, deep_every=4):
     for c, r in zip(deep, r32d):
         if "error" in r:
             continue
+        if not r.get("base_site", True):
+            viol.append(Violation(f"C11:not-reparameterised:{c['kind']}", f"{c['kind']} helper with suffix '{c['suffix']}': the parameter is not re-parameterised to unit scale "
+                                  f"(no '<name>{c['suffix']}_base' latent with '<name>{c['suffix']}' exposed as loc + scale·base)", dict(kind="oracle", case=c)))
+            continue
         lo = c["low"] if c["low"] is not None else -np.inf
         hi = c["high"] if c["high"] is not None else np.inf
         if c["kind"] != "gaussian":
@@ -240,7 +264,7 @@ def evaluate(ctx, cases, deep_every=4):
 def correspondence(ctx):
     rng = ctx.rng("corr")
     cases = gen_cases(rng, 120 if ctx.tier == "quick" else 3000)
-    dis, viol, stats = evaluate(ctx, cases, deep_every=6 if ctx.tier == "quick" else 30)
+    dis, viol, stats = evaluate(ctx, cases, deep_every=2 if ctx.tier == "quick" else 10)
     return dict(name="installed prior objects and log_prob vs Pysersic.Prob.{gaussianPrior, uniformPrior, truncGaussianPrior}",
                 evaluations=len(cases) * 5 * 2, distinct_nontrivial=stats["one_sided"] + stats["kinds"].get("trunc", 0),
                 rule="seeded (helper, loc, scale ∈ [1e-2,1e3], |loc| ≤ 100·scale, windows from 6σ below to 12σ above, one- and two-sided, suffixes), 3 points inside "
